@@ -1,9 +1,9 @@
 (* C18 -- source facts.  The machines and monitors this property rests on were written against, and validated on,
    these definitions of /repo; tools/srcfacts.py regenerates their normal-form digests on every run (coq/Gen/Src_*.v).
-   Statements only. *)
+   Statements only.  Written by `tools/srcfacts.py --props` from PROP_MODULES. *)
 From Coq Require Import List String.
-From ME Require Import Model.SrcExpected Gen.Src_common Gen.Src_map Gen.Src_flat_map Gen.Src_poll Gen.Src_retry Gen.Src_throttle Gen.Src_fbool Gen.Src_fzip Gen.Src_timeout Gen.Src_cos Gen.Src_helpers Gen.Src_fbase
-  Proofs.Src_ok_common Proofs.Src_ok_map Proofs.Src_ok_flat_map Proofs.Src_ok_poll Proofs.Src_ok_retry Proofs.Src_ok_throttle Proofs.Src_ok_fbool Proofs.Src_ok_fzip Proofs.Src_ok_timeout Proofs.Src_ok_cos Proofs.Src_ok_helpers Proofs.Src_ok_fbase.
+From ME Require Import Model.SrcExpected Gen.Src_common Gen.Src_map Gen.Src_flat_map Gen.Src_poll Gen.Src_retry Gen.Src_throttle Gen.Src_fbool Gen.Src_fzip Gen.Src_timeout Gen.Src_cos Gen.Src_helpers Gen.Src_fbase Gen.Src_logwrap Gen.Src_metrics_null
+  Proofs.Src_ok_common Proofs.Src_ok_map Proofs.Src_ok_flat_map Proofs.Src_ok_poll Proofs.Src_ok_retry Proofs.Src_ok_throttle Proofs.Src_ok_fbool Proofs.Src_ok_fzip Proofs.Src_ok_timeout Proofs.Src_ok_cos Proofs.Src_ok_helpers Proofs.Src_ok_fbase Proofs.Src_ok_logwrap Proofs.Src_ok_metrics_null.
 
 (* more_executors/_impl/common.py *)
 Theorem c18_source_common : Src_common.facts = expected_common.
@@ -41,6 +41,12 @@ Proof. exact src_helpers_ok. Qed.
 (* more_executors/_impl/futures/base.py *)
 Theorem c18_source_fbase : Src_fbase.facts = expected_fbase.
 Proof. exact src_fbase_ok. Qed.
+(* more_executors/_impl/logwrap.py *)
+Theorem c18_source_logwrap : Src_logwrap.facts = expected_logwrap.
+Proof. exact src_logwrap_ok. Qed.
+(* more_executors/_impl/metrics/null.py *)
+Theorem c18_source_metrics_null : Src_metrics_null.facts = expected_metrics_null.
+Proof. exact src_metrics_null_ok. Qed.
 
 Print Assumptions c18_source_common.
 Print Assumptions c18_source_map.
@@ -54,3 +60,5 @@ Print Assumptions c18_source_timeout.
 Print Assumptions c18_source_cos.
 Print Assumptions c18_source_helpers.
 Print Assumptions c18_source_fbase.
+Print Assumptions c18_source_logwrap.
+Print Assumptions c18_source_metrics_null.
